@@ -79,17 +79,52 @@ func (a v4) is(x *ip.IPv4) bool {
 	return x != nil && x.A == uint8(a.Addr>>24) && x.B == uint8(a.Addr>>16) && x.C == uint8(a.Addr>>8) && x.D == uint8(a.Addr) && x.MaskBits == a.Bits
 }
 
+// operands4 watches the IPv4 values handed to the library: addresses are values, and a membership or range test,
+// a mask computation or a print that changed its receiver or an argument would make every later answer about that
+// address wrong. check is called after every library call and reports the first operand that no longer has the
+// address and prefix length it was built with.
+type operands4 struct {
+	want []v4
+	ptr  []*ip.IPv4
+	name []string
+	bad  bool
+}
+
+func (o *operands4) add(name string, w v4, p *ip.IPv4) *ip.IPv4 {
+	o.want, o.ptr, o.name = append(o.want, w), append(o.ptr, p), append(o.name, name)
+	return p
+}
+
+func (o *operands4) check(call string, fs *[]vf.Finding) {
+	if o.bad {
+		return
+	}
+	for i, p := range o.ptr {
+		if !o.want[i].is(p) || p.ToUInt32() != o.want[i].Addr {
+			o.bad = true
+			*fs = append(*fs, vf.F("IPv4."+call, "call-modifies-its-operand", "after %s the %s, built as %s, is %s (fields %+v)", call, o.name[i], o.want[i], p.String(), *p))
+			return
+		}
+	}
+}
+
 // ---- ipv4 text ------------------------------------------------------------------
 
 // The property asks that printed text parses back to the same value; it fixes no literal format. Every text the
 // library prints for an address with its prefix (String, CIDRAddress) is handed to the library's own parser.
 func checkV4Text(c v4) []vf.Finding {
-	x := c.lib()
+	var ops operands4
+	x := ops.add("receiver", c, c.lib())
 	var fs []vf.Finding
 	if x.ToUInt32() != c.Addr {
 		fs = append(fs, vf.F("IPv4.ToUInt32", "value-differs", "%s: %#x", c, x.ToUInt32()))
 	}
-	for _, pr := range []struct{ method, text string }{{"String", x.String()}, {"CIDRAddress", x.CIDRAddress()}} {
+	ops.check("ToUInt32", &fs)
+	str := x.String()
+	ops.check("String", &fs)
+	cidr := x.CIDRAddress()
+	ops.check("CIDRAddress", &fs)
+	for _, pr := range []struct{ method, text string }{{"String", str}, {"CIDRAddress", cidr}} {
 		p := ip.NewIPv4FromString(pr.text)
 		if p == nil {
 			fs = append(fs, vf.F("ip.NewIPv4FromString", "own-text-rejected", "%s of %s: %q -> nil", pr.method, c, pr.text))
@@ -126,19 +161,36 @@ func checkSubnet(c subnetCase) []vf.Finding {
 	}
 	// the address under test carries its own, different prefix length (a host address or
 	// whatever its interface has); membership must depend on the subnet's prefix only
-	x := v4{c.IP, c.IPBits}.lib()
-	sn := v4{c.Net, c.Len}.lib()
+	var ops operands4
+	x := ops.add("address", v4{c.IP, c.IPBits}, v4{c.IP, c.IPBits}.lib())
+	sn := ops.add("subnet", v4{c.Net, c.Len}, v4{c.Net, c.Len}.lib())
 	if got := x.IsInSubnet(sn); got != want {
 		fs = append(fs, vf.F("IPv4.IsInSubnet", "differs-from-prefix-arithmetic", "%s in %s: got %v want %v", v4{c.IP, 32}, v4{c.Net, c.Len}, got, want))
 	}
+	ops.check("IsInSubnet", &fs)
 	// ComputeMask / CIDRMask = network address of the value's own prefix
 	cm := sn.ComputeMask()
-	if cm.ToUInt32() != c.Net&m || cm.MaskBits != c.Len {
-		fs = append(fs, vf.F("IPv4.ComputeMask", "differs-from-standard-mask", "%s: got %s want %s", v4{c.Net, c.Len}, cm.String(), v4{c.Net & m, c.Len}))
+	if cm == nil || cm.ToUInt32() != c.Net&m || cm.MaskBits != c.Len {
+		fs = append(fs, vf.F("IPv4.ComputeMask", "differs-from-standard-mask", "%s: got %v want %s", v4{c.Net, c.Len}, cm, v4{c.Net & m, c.Len}))
 	}
+	ops.check("ComputeMask", &fs)
 	// CIDRMask prints that network; the text is read back by the library's own parser, no literal format is demanded
 	if got, w := sn.CIDRMask(), (v4{c.Net & m, c.Len}); !w.is(ip.NewIPv4FromString(got)) {
 		fs = append(fs, vf.F("IPv4.CIDRMask", "differs-from-standard-mask", "%s: got %s want %s", v4{c.Net, c.Len}, got, w))
+	}
+	ops.check("CIDRMask", &fs)
+	// the same calls on the address under test (host bits set, a prefix of its own), and the membership once more:
+	// an answer about an address does not depend on what it was asked before
+	if cmx, mx := x.ComputeMask(), mask(c.IPBits); cmx == nil || cmx.ToUInt32() != c.IP&mx || cmx.MaskBits != c.IPBits {
+		fs = append(fs, vf.F("IPv4.ComputeMask", "differs-from-standard-mask", "%s: got %v want %s", v4{c.IP, c.IPBits}, cmx, v4{c.IP & mx, c.IPBits}))
+	}
+	ops.check("ComputeMask", &fs)
+	if got, w := x.CIDRMask(), (v4{c.IP & mask(c.IPBits), c.IPBits}); !w.is(ip.NewIPv4FromString(got)) {
+		fs = append(fs, vf.F("IPv4.CIDRMask", "differs-from-standard-mask", "%s: got %s want %s", v4{c.IP, c.IPBits}, got, w))
+	}
+	ops.check("CIDRMask", &fs)
+	if got := x.IsInSubnet(sn); got != want && !ops.bad {
+		fs = append(fs, vf.F("IPv4.IsInSubnet", "differs-from-prefix-arithmetic", "%s in %s, asked again after ComputeMask and CIDRMask: got %v want %v", v4{c.IP, 32}, v4{c.Net, c.Len}, got, want))
 	}
 	return fs
 }
@@ -199,20 +251,42 @@ type rangeCase struct {
 
 func checkRange4(c rangeCase) []vf.Finding {
 	want := c.IP >= c.Start && c.IP <= c.End
-	x, a, b := v4{c.IP, c.IPBits}.lib(), v4{c.Start, c.StartBits}.lib(), v4{c.End, c.EndBits}.lib()
+	var ops operands4
+	x := ops.add("address", v4{c.IP, c.IPBits}, v4{c.IP, c.IPBits}.lib())
+	a := ops.add("start of the range", v4{c.Start, c.StartBits}, v4{c.Start, c.StartBits}.lib())
+	b := ops.add("end of the range", v4{c.End, c.EndBits}, v4{c.End, c.EndBits}.lib())
 	var fs []vf.Finding
 	if got := x.IsInRange(a, b); got != want {
-		fs = append(fs, vf.F("IPv4.IsInRange", "differs-from-unsigned-comparison", "%s in [%s,%s]: got %v", x, a, b, got))
+		fs = append(fs, vf.F("IPv4.IsInRange", "differs-from-unsigned-comparison", "%s in [%s,%s]: got %v", v4{c.IP, c.IPBits}, v4{c.Start, c.StartBits}, v4{c.End, c.EndBits}, got))
 	}
+	ops.check("IsInRange", &fs)
 	r := &ip.IPv4Range{Start: a, End: b}
 	if got := r.Contains(x); got != want {
-		fs = append(fs, vf.F("IPv4Range.Contains", "differs-from-unsigned-comparison", "%s in %s: got %v", x, r, got))
+		fs = append(fs, vf.F("IPv4Range.Contains", "differs-from-unsigned-comparison", "%s in [%s,%s]: got %v", v4{c.IP, c.IPBits}, v4{c.Start, c.StartBits}, v4{c.End, c.EndBits}, got))
 	}
-	// address ranges have no parser: the text must name both endpoints, start before end, in whatever format
-	if got := r.String(); !inOrder(got, a.String(), b.String()) {
-		fs = append(fs, vf.F("IPv4Range.String", "text-lacks-endpoints-in-order", "got %q for start %q end %q", got, a.String(), b.String()))
+	ops.check("IPv4Range.Contains", &fs)
+	// address ranges have no parser and the property fixes no format for them: the text must name both endpoints
+	// (their dotted addresses, with or without a prefix length), start before end
+	got := r.String()
+	ops.check("IPv4Range.String", &fs)
+	if da, db := dotted(c.Start), dotted(c.End); !inOrder(got, da, db) {
+		fs = append(fs, vf.F("IPv4Range.String", "text-lacks-endpoints-in-order", "got %q for start %s end %s", got, da, db))
+	}
+	// the masks of the three operands (each has a prefix of its own), then the question once more
+	for _, p := range []*ip.IPv4{x, a, b} {
+		p.ComputeMask()
+		ops.check("ComputeMask", &fs)
+		_ = p.CIDRMask()
+		ops.check("CIDRMask", &fs)
+	}
+	if got := x.IsInRange(a, b); got != want && !ops.bad {
+		fs = append(fs, vf.F("IPv4.IsInRange", "differs-from-unsigned-comparison", "%s in [%s,%s], asked again after ComputeMask and CIDRMask of the operands: got %v", v4{c.IP, c.IPBits}, v4{c.Start, c.StartBits}, v4{c.End, c.EndBits}, got))
 	}
 	return fs
+}
+
+func dotted(a uint32) string {
+	return fmt.Sprintf("%d.%d.%d.%d", uint8(a>>24), uint8(a>>16), uint8(a>>8), uint8(a))
 }
 
 // inOrder: s contains a and, after that occurrence of a, b
@@ -296,8 +370,23 @@ type v6Case struct {
 func checkV6(c v6Case) []vf.Finding {
 	var fs []vf.Finding
 	x, a, b := c.IP.lib(), c.Start.lib(), c.End.lib()
+	// no call changes its receiver or its arguments (checked after every call, first difference reported)
+	modified := false
+	unchanged := func(call string) {
+		for _, o := range []struct {
+			name string
+			want v6
+			p    *ip.IPv6
+		}{{"address", c.IP, x}, {"start of the range", c.Start, a}, {"end of the range", c.End, b}} {
+			if !modified && [8]uint16{o.p.A, o.p.B, o.p.C, o.p.D, o.p.E, o.p.F, o.p.G, o.p.H} != o.want.G {
+				modified = true
+				fs = append(fs, vf.F("IPv6."+call, "call-modifies-its-operand", "after %s the %s, built from groups %04x, has fields %+v", call, o.name, o.want.G, *o.p))
+			}
+		}
+	}
 	// text: no literal format is demanded, the text must denote the address and parse back to the same value
 	txt := x.String()
+	unchanged("String")
 	if std := net.ParseIP(txt); std == nil || new(big.Int).SetBytes(std.To16()).Cmp(c.IP.big()) != 0 {
 		fs = append(fs, vf.F("IPv6.String", "text-not-the-address", "%v -> %q (net.ParseIP: %v)", c.IP.G, txt, std))
 	}
@@ -310,6 +399,7 @@ func checkV6(c v6Case) []vf.Finding {
 		}
 	}
 	u := x.ToUInt128()
+	unchanged("ToUInt128")
 	if v := new(big.Int).Or(new(big.Int).Lsh(new(big.Int).SetUint64(u[0]), 64), new(big.Int).SetUint64(u[1])); v.Cmp(c.IP.big()) != 0 {
 		fs = append(fs, vf.F("IPv6.ToUInt128", "value-differs", "%s: %x", txt, u))
 	}
@@ -318,14 +408,19 @@ func checkV6(c v6Case) []vf.Finding {
 	if got := x.IsInRange(a, b); got != wantIn {
 		fs = append(fs, vf.F("IPv6.IsInRange", "differs-from-unsigned-comparison", "%s in [%s,%s]: got %v", x, a, b, got))
 	}
+	unchanged("IsInRange")
 	r := &ip.IPv6Range{Start: a, End: b}
 	if got := r.Contains(x); got != wantIn {
 		fs = append(fs, vf.F("IPv6Range.Contains", "differs-from-unsigned-comparison", "%s in %s: got %v", x, r, got))
 	}
+	unchanged("IPv6Range.Contains")
+	_ = r.String()
+	unchanged("IPv6Range.String")
 	// IsInSubnet has no prefix length in this library: only the /128 meaning
 	if got := x.IsInSubnet(a); got != (c.IP == c.Start) {
 		fs = append(fs, vf.F("IPv6.IsInSubnet", "differs-from-slash-128", "%s vs %s: got %v", x, a, got))
 	}
+	unchanged("IsInSubnet")
 	return fs
 }
 
@@ -373,6 +468,9 @@ func checkPorts(c portCase) []vf.Finding {
 	} else if !sameExported(p, r) || p.Start != c.Start || p.End != c.End {
 		fs = append(fs, vf.F("ip.NewTCPPortRangeFromString", "print-parse-not-identity", "%d-%d: %q -> %+v", c.Start, c.End, r.String(), *p))
 	}
+	if r.Start != c.Start || r.End != c.End {
+		fs = append(fs, vf.F("TCPPortRange.String", "call-modifies-its-operand", "the range %d-%d is %+v after it was printed", c.Start, c.End, *r))
+	}
 	return fs
 }
 
@@ -417,6 +515,10 @@ type hashCase struct {
 	Left  string `json:"left_pad"`
 	Right string `json:"right_pad"`
 	Case  int    `json:"case"`
+	// the other arguments of NewCredentials: the hash specification is parsed the same whatever they are
+	Domain   string `json:"domain,omitempty"`
+	User     string `json:"user,omitempty"`
+	Password string `json:"password,omitempty"`
 }
 
 func (c hashCase) spec() string {
@@ -459,14 +561,19 @@ func checkHashes(c hashCase) []vf.Finding {
 	} else if !strings.EqualFold(lm1, lm0) || !strings.EqualFold(nt1, nt0) {
 		fs = append(fs, vf.F("credentials.ParseLMNTHashes", "padding-changes-result", "%q -> (%q,%q) but %q -> (%q,%q)", bare, lm0, nt0, padded, lm1, nt1))
 	}
-	// the same through NewCredentials
-	cr, err := credentials.NewCredentials("DOM", "user", "", padded)
-	if err != nil || cr == nil {
-		fs = append(fs, vf.F("credentials.NewCredentials", "padding-changes-acceptance", "%q: %v", padded, err))
-	} else if !strings.EqualFold(cr.GetLMHash(), c.LM) || !strings.EqualFold(cr.GetNTHash(), c.NT) {
-		fs = append(fs, vf.F("credentials.NewCredentials", "valid-hash-discarded", "%q -> lm %q nt %q", padded, cr.GetLMHash(), cr.GetNTHash()))
-	} else if c.NT != "" && !cr.CanPassTheHash() {
-		fs = append(fs, vf.F("Credentials.CanPassTheHash", "false-with-nt-hash", "%q", padded))
+	// the same through NewCredentials, whatever domain, user name and password are given next to the hashes
+	for _, a := range [][3]string{{"DOM", "user", ""}, {c.Domain, c.User, c.Password}} {
+		cr, err := credentials.NewCredentials(a[0], a[1], a[2], padded)
+		if err != nil || cr == nil {
+			fs = append(fs, vf.F("credentials.NewCredentials", "padding-changes-acceptance", "NewCredentials(%q, %q, %q, %q): %v", a[0], a[1], a[2], padded, err))
+		} else if !strings.EqualFold(cr.GetLMHash(), c.LM) || !strings.EqualFold(cr.GetNTHash(), c.NT) {
+			fs = append(fs, vf.F("credentials.NewCredentials", "valid-hash-discarded", "NewCredentials(%q, %q, %q, %q) -> lm %q nt %q", a[0], a[1], a[2], padded, cr.GetLMHash(), cr.GetNTHash()))
+		} else if c.NT != "" && a[1] != "" && a[2] == "" && !cr.CanPassTheHash() {
+			fs = append(fs, vf.F("Credentials.CanPassTheHash", "false-with-nt-hash", "NewCredentials(%q, %q, %q, %q)", a[0], a[1], a[2], padded))
+		}
+		if a == [3]string{c.Domain, c.User, c.Password} {
+			break // the generated arguments are the fixed ones
+		}
 	}
 	return fs
 }
@@ -530,6 +637,9 @@ func TestLMNTHashes(t *testing.T) {
 		default:
 			c.LM, c.NT = "aad3b435b51404eeaad3b435b51404ee", genHash(t, "nt")
 		}
+		c.Domain = rapid.SampledFrom([]string{"", "DOM", "corp.example.com", "."}).Draw(t, "domain")
+		c.User = rapid.SampledFrom([]string{"user", "", "Administrator", "svc$", "user@corp.example.com"}).Draw(t, "user")
+		c.Password = rapid.SampledFrom([]string{"", "pw", "P@ssw0rd!", " ", "pass:word", "aad3b435b51404eeaad3b435b51404ee"}).Draw(t, "password")
 		return c
 	}, checkHashes, func(c hashCase) bool { return c.Left != "" && c.Right != "" })
 }
